@@ -75,11 +75,13 @@ def run(rep, tier, seed):
     rep.add_obligations(res, "Properties_C08")
     rng = random.Random("C08-%d" % seed)
     docs = [gen_doc(rng).encode("utf-8") for _ in range(300 if tier == "quick" else 8000)]
+    # minimised past failures run first, in the format they failed in (here: a figure inside a tight list item, EPUB XHTML)
+    PAST = [(b"1. \n  ![]()", "epub"), (b"* \n  ![a](b.png)\n* x\n", "epub"), (b"> 1. \n>   ![a](b.png \"t\")\n", "epub")]
     fmts = ["opml", "fodt", "itmz", "odt", "epub"]
     E = tchk.EXT
     extsets = [E["notes"], E["notes"] | E["smart"], E["notes"] | E["critic"], E["notes"] | E["complete"], E["notes"] | E["snippet"], E["compat"],
                E["notes"] | E["critic"] | E["accept"], E["notes"] | E["nolabels"]]
-    jobs = []
+    jobs = [(d, f, E["notes"] | E["smart"], 0) for d, f in PAST]
     for d in docs:
         for f in fmts if tier != "quick" else rng.sample(fmts, 3):
             jobs.append((d, f, rng.choice(extsets), rng.randrange(7)))
